@@ -57,6 +57,14 @@ CHECKS = {
    "Drives the real GrpcWebClientService with bodies from the harness's own grpc-web encoder under every chunking class, every single/double cut of small bodies and truncation at every byte; checks message bytes, full trailers as a multimap, error-on-truncation, finality, and uses poll budgets plus a body that parks after 64 post-end polls to observe hangs and busy loops.",
    "Held on the executions produced.",
    "runtime monitoring: independent encoder + truncation rules + busy-loop/hang monitors", "DESIGN.md#c17"),
+ "C08": ("exploration",
+   "Sends tainted metadata (reserved names carrying a USERVAL tag at random positions, ASCII and binary, repeats) through the real generated client and server while taps record what is on the wire and an optional padding peer re-encodes every -bin value; checks wire form, absence of taint under reserved names and restoration on the receiving side; a second monitor exercises every typed accessor of MetadataMap over arbitrary peer headers.",
+   "Held on the executions produced; HTTP/2 HPACK is not in the path of the quick tier.",
+   "runtime monitoring: taint tags + wire taps + multimap equality at both API boundaries", "DESIGN.md#c08"),
+ "C18": ("exploration",
+   "Random sequential histories over set/clear/check/watch/next through the generated HealthClient, with watchers polled only when an executor would poll them (never polled, or woken since their last Pending) and a sequential reference model; plus concurrent histories on a multi-thread runtime checked for per-service linearizability (Wing-Gong search over a register model, 2 s checker timeout => inconclusive) and watch-stream constraints.",
+   "Held on the histories produced; in the concurrent leg staleness is never decided by wall-clock (watchdog => inconclusive), the sequential leg decides it.",
+   "runtime monitoring: sequential reference model with executor-faithful watcher scheduling + linearizability checker", "DESIGN.md#c18"),
 }
 
 NOT_YET = {}
